@@ -55,7 +55,9 @@ NoTid == ""
 BagOfImage(S, F(_)) ==
   LET f == [x \in S |-> F(x)]          \* F is evaluated once per occurrence
       img == {f[x] : x \in S}
-  IN  [e \in img |-> Cardinality({x \in S : f[x] = e})]
+  IN  IF Cardinality(img) = Cardinality(S)
+        THEN [e \in img |-> 1]          \* F injective on S: every count is 1 (shortcut, same value)
+        ELSE [e \in img |-> Cardinality({x \in S : f[x] = e})]
 \* the bag of the entries of a sequence
 SeqBag(s) == BagOfImage(DOMAIN s, LAMBDA i : s[i])
 BagPlus(A, B) ==
